@@ -883,6 +883,9 @@ def setitem(a, key, value, aug=None):
         raise ReadOnlyStore(f"store into read-only array #{a.sid}")
     if isinstance(key, Arr) and key.dtype == "bool":
         return _mask_store(a, key, value, aug)
+    if isinstance(key, tuple) and len(key) >= 2 and isinstance(key[0], Arr) and key[0].dtype == "bool" and key[0].ndim == 1 \
+            and all(sv.is_scalar(norm(k)) and not isinstance(k, slice) and k is not None for k in key[1:]) and len(key) == a.ndim:
+        return _mask_row_store(a, key[0], key[1:], value, aug)
     target = getitem(a, key) if not _is_full_key(key) else a
     content = st.heap[a.sid]
     old = content.data
@@ -997,6 +1000,44 @@ def _mask_store(a, mask, value, aug):
             x = v if not aug else scalar_binop(aug, old(idx), v)
             return _cast(x, dt)
         return ite(mr(tuple(idx[:nm])), nv, lambda: old(idx))
+    _replace(a.sid, fn)
+
+
+def _mask_row_store(a, mask, rest_key, value, aug):
+    """a[mask, c1, .., ck] = value  (mask: boolean over axis 0, integer indices on all other axes): for every row r with mask[r]
+    the element a[r, c1..ck] is set.  value: a scalar, or the selection v[mask'] of a 1-D array by a mask equal to `mask`
+    (numpy pairs the selected rows in order: side obligation `mask-match`), then row r receives v[r]."""
+    st = cur()
+    if a.view is not None:
+        raise EngineError("mask store through a view")
+    old = st.heap[a.sid].data
+    require_dim_eq(mask.shape[0], a.shape[0], "mask-length")
+    fixed = tuple(_norm_index(k, a.shape[1 + n]) for n, k in enumerate(rest_key))
+    mr = mask.reader()
+    if isinstance(value, Masked):
+        if value.rest != ():
+            raise EngineError("mask store with a selection of rows of an n-d array")
+        require_dim_eq(value.n, mask.shape[0], "mask-length")
+        t = sv.fresh_int("mm")
+        m1, m2 = norm(value.mask(t)), norm(mr((t,)))
+        same = (is_conc(m1) and is_conc(m2) and bool(m1) == bool(m2)) or (isinstance(m1, SV) and isinstance(m2, SV) and m1.t.eq(m2.t))
+        if not same:
+            st.require(sv.implies(sv.and_(sv.cmp(">=", t, 0), sv.cmp("<", t, mask.shape[0])), sv.cmp("==", m1, m2)), "mask-match")
+        vsrc = value.src
+        vat = lambda r: vsrc((r,))
+    else:
+        vshape, vreader, _ = as_operand(value)
+        if vshape != ():
+            raise EngineError("mask store with array value")
+        v0 = vreader(())
+        vat = lambda r: v0
+    dt = a.dtype
+
+    def fn(idx):
+        def nv():
+            x = vat(idx[0]) if not aug else scalar_binop(aug, old(idx), vat(idx[0]))
+            return _cast(x, dt)
+        return ite(sv.and_(mr((idx[0],)), _idx_eq(tuple(idx[1:]), fixed)), nv, lambda: old(idx))
     _replace(a.sid, fn)
 
 
